@@ -154,6 +154,30 @@ func (h *cacheHist) resize(capacity int, cond bool) {
 	}
 }
 
+// dump compares the bookkeeping state with the L0 model.
+func (h *cacheHist) dump() {
+	if h.cap > 3000 {
+		return
+	}
+	h.t.Op(h.c.VerifDump(), "dump")
+}
+
+// sweep looks up every one of the last k stored numbers (and a few older
+// ones): after a resize or a wrap each of them must still be retrievable.
+func (h *cacheHist) sweep() {
+	if h.k > 400 {
+		return
+	}
+	lo := len(h.log) - h.k - 2
+	if lo < 0 {
+		lo = 0
+	}
+	for i := lo; i < len(h.log); i++ {
+		h.get(h.log[i].seq)
+	}
+	h.t.Note("sweep")
+}
+
 func (h *cacheHist) misc(which int) {
 	switch which {
 	case 0:
@@ -215,7 +239,35 @@ func (h *cacheHist) bitmapGet(next uint16) {
 
 // genCacheStream produces the arrival order of one stream: mostly in order
 // with loss, duplicates, reordering and occasional restarts.
+// cacheWrapGrow: the ring has wrapped, the numbers cross 65535 -> 0, then the
+// cache is grown or shrunk; every recent packet must stay retrievable.
+func cacheWrapGrow(t *tr.Trace, r *tr.Rand) {
+	for _, capacity := range []int{1, 2, 3, 16, 31} {
+		for _, before := range []int{1, 4, 12, 40} {
+			for _, grow := range []int{capacity + 1, capacity * 2, capacity + 16, (capacity + 1) / 2} {
+				h := newCacheHist(t, r, "corpus-wrap-resize", capacity)
+				seq := uint16(65536 - before)
+				for i := 0; i < before+capacity/2+3; i++ {
+					h.store(seq, uint32(1000+i), i%7 == 0, i%3 == 0, r.Bytes(r.Range(1, 9)))
+					seq++
+				}
+				h.sweep()
+				h.resize(grow, r.Bool())
+				h.sweep()
+				h.dump()
+				for i := 0; i < 8; i++ {
+					h.store(seq, uint32(5000+i), false, false, r.Bytes(r.Range(1, 9)))
+					seq++
+				}
+				h.sweep()
+				h.dump()
+			}
+		}
+	}
+}
+
 func runCache(t *tr.Trace, r *tr.Rand, n int) {
+	cacheWrapGrow(t, r)
 	for hi := 0; hi < n; hi++ {
 		var capacity int
 		stream := ""
@@ -356,12 +408,15 @@ func runCache(t *tr.Trace, r *tr.Rand, n int) {
 				}
 				h.resize(nc, false)
 				t.Note("resize")
+				h.sweep()
+				h.dump()
 			case 4:
 				nc := max(1, h.cap+r.Range(-h.cap, h.cap+10))
 				if nc > 65535 {
 					nc = 65535
 				}
 				h.resize(nc, true)
+				h.sweep()
 			case 5:
 				h.misc(r.Intn(2))
 			case 6: // as readLoop does: BitmapGet(seqno - unnacked)
@@ -376,6 +431,8 @@ func runCache(t *tr.Trace, r *tr.Rand, n int) {
 				h.stats(r.Chance(1, 2))
 			}
 		}
+		h.sweep()
+		h.dump()
 		if len(h.log) > 3 {
 			t.Nontrivial(fmt.Sprintf("cache/%d/%d/%d", h.cap, len(h.log), h.log[len(h.log)-1].seq))
 		}
